@@ -151,9 +151,9 @@ def build_env(scn, sched, hist):
     return env
 
 
-def make_run(scn, max_steps=4000):
+def make_run(scn, max_steps=4000, line_preempt=False):
     def run_one(chooser):
-        sched = detsched.Scheduler(chooser, max_steps=max_steps)
+        sched = detsched.Scheduler(chooser, max_steps=max_steps * (25 if line_preempt else 1), line_preempt=line_preempt)
         hist = []
         env = build_env(scn, sched, hist)
         fns = [(lambda i=i, ops=ops: env["run_ops"](str(i), ops)) for i, ops in enumerate(scn["threads"])]
